@@ -66,6 +66,10 @@ CHECKS = {
    text="PRNG Subscribe/Unsubscribe histories (more changes than the queue holds while no stream can be established, Sub/Unsub/Sub bursts, slow server batching, scripted factory/send/recv failures): every call returns (else two stack dumps decide deadlock), a stream is re-created after every failure, and once the last call returned the set subscribed on the live stream (subscribe lists minus unsubscribe lists of that stream) equals the dependency set within the deadline.",
    note="Assumes the server applies a message's subscribe list before its unsubscribe list. The real-gRPC path (config.New with a dynamic source) is not built; the client under test is the real svcDiscoveryClient through the verif constructor.",
    ref="DESIGN.md section 4 C16"),
+ "C08": dict(level="exploration", technique="final-state comparison of running (recording) processors against the configuration store's own view at sentinel-marked quiescence, over PRNG update histories through the real store and controller; plain and -race children (scope config/config.go, controller/controller.go)",
+   text="After PRNG histories of dependency / config / endpoint updates (address in both lists, removal-only updates, duplicates, invalid configs later corrected, unknown and removed services, static services) and once a trailing sentinel service runs: exactly one started-and-not-stopped processor per service with a valid config and an endpoint list in the store, none otherwise, its config Equal to the store's and its host set (address, type) equal to the store's endpoints.",
+   note="The store's MarshalJSON view is taken as the configured state; services whose latest config is invalid are judged only on not disturbing others. Recording processors are registered under protocol.MySQL through the public registry.",
+   ref="DESIGN.md section 4 C08"),
 }
 NOT_BUILT = "check not built yet in this session (design in DESIGN.md section 4)"
 
